@@ -16,9 +16,26 @@ import (
 func main() {
 	req := readRequest()
 	format := parseFormat(req)
-	plugin := createPlugin(req)
+	plugin, err := createPlugin(req)
+	if err != nil {
+		// Report the problem to protoc in the response, as the other plugins do,
+		// instead of crashing.
+		writeErrorResponse(err)
+		return
+	}
 	generateOpenAPIFiles(plugin, format)
 	writeResponse(plugin)
+}
+
+func writeErrorResponse(err error) {
+	resp := &pluginpb.CodeGeneratorResponse{Error: proto.String(err.Error())}
+	respOutput, marshalErr := proto.Marshal(resp)
+	if marshalErr != nil {
+		panic(marshalErr)
+	}
+	if _, writeErr := os.Stdout.Write(respOutput); writeErr != nil {
+		panic(writeErr)
+	}
 }
 
 func readRequest() *pluginpb.CodeGeneratorRequest {
@@ -50,13 +67,9 @@ func parseFormat(req *pluginpb.CodeGeneratorRequest) openapiv3.OutputFormat {
 	return format
 }
 
-func createPlugin(req *pluginpb.CodeGeneratorRequest) *protogen.Plugin {
+func createPlugin(req *pluginpb.CodeGeneratorRequest) (*protogen.Plugin, error) {
 	opts := protogen.Options{}
-	plugin, err := opts.New(req)
-	if err != nil {
-		panic(err)
-	}
-	return plugin
+	return opts.New(req)
 }
 
 func generateOpenAPIFiles(plugin *protogen.Plugin, format openapiv3.OutputFormat) {
